@@ -149,6 +149,10 @@ func analyseHandler(c *Ctx, h *ssa.Function) (out struct {
 			if anyTaint && c.hasPanic(cal, 0, memo) {
 				return true
 			}
+			// a private validation helper: its verdict must stay tied to what it established about the request values
+			if anyTaint && cal.Object() != nil && !cal.Object().Exported() && verdictLike(cal) && len(cal.Blocks) <= 40 {
+				return true
+			}
 			for _, a := range args {
 				if a != nil && a.K == 'p' && a.Taint && a.Nil != tNo {
 					return true
